@@ -285,6 +285,7 @@ def run(module, cfg=None, workdir=None, workers=16, env=None, simulate=None, dep
         re.search(r'Error: Temporal properties were violated', out) or \
         re.search(r'Error: Assumption (.*) is false', out) or \
         re.search(r'Error: The postcondition (.*)is false', out) or \
+        re.search(r'Error: The invariant of (\S+) is equal to FALSE', out) or \
         re.search(r'Error: Deadlock reached', out)
     if viol:
         r.violated = True
